@@ -95,6 +95,113 @@ theorem agree_run {y1 y2 : Sync} (evs : List Event) (hp1 : PendOK y1) (hp2 : Pen
     have := ih (pendOK_syncStep y1 e hp1) (pendOK_syncStep y2 e hp2) (agree_step e hp1 hp2 h)
     simpa [Sync.run] using this
 
+/-! ## the table stays a map (distinct keys) -/
+
+theorem updateRemote_nodup (t : State) (id : String) (f : Node → Node) (h : t.nodes.NoDupKeys) :
+    (t.updateRemote id f).1.nodes.NoDupKeys := by
+  unfold State.updateRemote
+  split
+  · exact h
+  · split
+    · exact h
+    · exact h.insert _ _
+
+theorem updateRemoteEndpoint_nodup (t : State) (id e : String) (l : Int) (h : t.nodes.NoDupKeys) :
+    (t.updateRemoteEndpoint id e l).1.nodes.NoDupKeys := updateRemote_nodup t id _ h
+
+theorem removeRemoteEndpoint_nodup (t : State) (id e : String) (h : t.nodes.NoDupKeys) :
+    (t.removeRemoteEndpoint id e).1.nodes.NoDupKeys := updateRemote_nodup t id _ h
+
+theorem removeNode_nodup (t : State) (id : String) (h : t.nodes.NoDupKeys) :
+    (t.removeNode id).1.nodes.NoDupKeys := by
+  unfold State.removeNode
+  split
+  · exact h
+  · split
+    · exact h
+    · exact h.erase _
+
+theorem addNode_nodup (t : State) (n : Node) (h : t.nodes.NoDupKeys) : (t.addNode n).nodes.NoDupKeys := by
+  unfold State.addNode
+  split
+  · exact h
+  · exact h.insert _ _
+
+theorem tableElsePending_nodup (s : Sync) (id : String) (tbl : State → State × Bool)
+    (pend : AMap String Node → Node → AMap String Node) (h : s.table.nodes.NoDupKeys)
+    (ht : (tbl s.table).1.nodes.NoDupKeys) : (s.tableElsePending id tbl pend).table.nodes.NoDupKeys := by
+  unfold Sync.tableElsePending
+  split
+  · exact h
+  · split
+    · next t hb => rw [hb] at ht; exact ht
+    · split <;> exact h
+
+theorem upsertPending_nodup (s : Sync) (id k v : String) (h : s.table.nodes.NoDupKeys) :
+    (s.upsertPending id k v).table.nodes.NoDupKeys := by
+  unfold Sync.upsertPending
+  split
+  · exact h
+  · split
+    · exact h
+    · split
+      · exact addNode_nodup _ _ h
+      · exact h
+
+theorem syncStep_nodup (s : Sync) (e : Event) (h : s.table.nodes.NoDupKeys) :
+    (syncStep s e).table.nodes.NoDupKeys := by
+  cases e with
+  | join id =>
+    simp only [syncStep, Sync.onJoin]
+    split
+    · exact h
+    · split
+      · exact h
+      · split <;> exact h
+  | leave id => exact tableElsePending_nodup s id _ _ h (updateRemote_nodup _ _ _ h)
+  | reachable id => exact tableElsePending_nodup s id _ _ h (updateRemote_nodup _ _ _ h)
+  | unreachable id => exact tableElsePending_nodup s id _ _ h (updateRemote_nodup _ _ _ h)
+  | expired id => exact tableElsePending_nodup s id _ _ h (removeNode_nodup _ _ h)
+  | upsert id k v =>
+    simp only [syncStep, Sync.onUpsertKey]
+    split
+    · exact h
+    · split
+      · exact h
+      · cases hcut : cutPrefix endpointPrefix k with
+        | none => exact upsertPending_nodup s id k v h
+        | some eid =>
+          cases hat : atoi v with
+          | none => exact h
+          | some l =>
+            have hn := updateRemoteEndpoint_nodup s.table id eid l h
+            cases hb : s.table.updateRemoteEndpoint id eid l with
+            | mk t b =>
+              rw [hb] at hn
+              cases b with
+              | true => simp only [hb]; exact hn
+              | false => simp only [hb]; exact upsertPending_nodup s id k v h
+  | delete id k =>
+    simp only [syncStep, Sync.onDeleteKey]
+    split
+    · exact h
+    · cases hcut : cutPrefix endpointPrefix k with
+      | none => exact h
+      | some eid =>
+        have hn := removeRemoteEndpoint_nodup s.table id eid h
+        cases hb : s.table.removeRemoteEndpoint id eid with
+        | mk t b =>
+          rw [hb] at hn
+          cases b with
+          | true => simp only [hb]; exact hn
+          | false => simp only [hb]; split <;> exact h
+
+theorem run_nodup (s : Sync) (evs : List Event) (h : s.table.nodes.NoDupKeys) :
+    (s.run evs).table.nodes.NoDupKeys := by
+  induction evs generalizing s with
+  | nil => exact h
+  | cons e es ih => simpa [Sync.run] using ih (syncStep s e) (syncStep_nodup s e h)
+
 /-! ## liveness notifications -/
 
 theorem liveOKn_of_notLive (o : Option NView) (x : Event) (h : Flow.NotLive x) : LiveOKn o (evKind x) := by
@@ -246,6 +353,9 @@ structure NodeInv (pa aa : String → Option String) (n : String) (sd : Side) (g
   ownwf : OwnWF g
   paddr : liveValue g Cluster.proxyAddrKey = some sd.table.localNode.proxyAddr
   aaddr : liveValue g Cluster.adminAddrKey = some sd.table.localNode.adminAddr
+  /-- the routing table is a map, and its local row is there under the node's id -/
+  tnd : sd.table.nodes.NoDupKeys
+  tloc : ∃ row, sd.table.nodes.find n = some row ∧ row.id = n
 
 theorem liveValue_congr {g g' : CState} (h : own g' = own g) (k : String) : liveValue g' k = liveValue g k := by
   unfold liveValue; rw [h]
@@ -283,7 +393,13 @@ theorem NodeInv.observe {pa aa : String → Option String} {n : String} {sd : Si
       minv := ?_
       ownwf := by unfold OwnWF at *; rw [hown]; exact h.ownwf
       paddr := by rw [liveValue_congr hown, Side.observe_table, hloc]; exact h.paddr
-      aaddr := by rw [liveValue_congr hown, Side.observe_table, hloc]; exact h.aaddr }
+      aaddr := by rw [liveValue_congr hown, Side.observe_table, hloc]; exact h.aaddr
+      tnd := by rw [Side.observe_table]; exact SyncerSpec.run_nodup _ _ h.tnd
+      tloc := by
+        rw [Side.observe_table]
+        have := SyncerSpec.run_local_row sd.sync ev h.pend
+        rw [Side.sync_table, h.tlid] at this
+        rw [this]; exact h.tloc }
   refine ⟨h.minv.lbs, fun e => ?_, fun e => ?_⟩
   · show (sd.observe ev).table.localNode.endpoints.find e = _
     rw [Side.observe_table, hloc]; exact h.minv.counts e
@@ -299,7 +415,8 @@ theorem NodeInv.localWrite {pa aa : String → Option String} {n : String} {sd s
     (hminv : Upstream.MInv { lbs := sd'.lbs, cluster := sd'.table, gossip := g' })
     (hownwf : OwnWF g')
     (hp : liveValue g' Cluster.proxyAddrKey = some sd'.table.localNode.proxyAddr)
-    (ha : liveValue g' Cluster.adminAddrKey = some sd'.table.localNode.adminAddr) :
+    (ha : liveValue g' Cluster.adminAddrKey = some sd'.table.localNode.adminAddr)
+    (htnd : sd'.table.nodes.NoDupKeys) (htloc : ∃ row, sd'.table.nodes.find n = some row ∧ row.id = n) :
     NodeInv pa aa n sd' g' := by
   have hfold : C14.foldOK (Gossip.foldEvents [] sd.evs) g' := by
     have := h.fold; unfold C14.foldOK at *; rw [hgood.vis]; exact this
@@ -322,6 +439,8 @@ theorem NodeInv.localWrite {pa aa : String → Option String} {n : String} {sd s
       minv := hminv
       ownwf := hownwf
       paddr := hp
-      aaddr := ha }
+      aaddr := ha
+      tnd := htnd
+      tloc := htloc }
 
 end Piko
